@@ -107,6 +107,11 @@ impl Scenario for MutexScn {
                     let s = BufferedUnixMetricSink::with_capacity(rx.path(), UnixDatagram::unbound().unwrap(), scn.cap);
                     (Recv::Sock(rx), Arc::new(s))
                 }
+                "udp" => {
+                    let rx = Rx::udp(false).unwrap();
+                    let s = cadence::BufferedUdpMetricSink::with_capacity(rx.addr(), std::net::UdpSocket::bind("127.0.0.1:0").unwrap(), scn.cap).unwrap();
+                    (Recv::Sock(rx), Arc::new(s))
+                }
                 _ => {
                     let (r, s) = BufferedSpyMetricSink::with_capacity(scn.queue, Some(scn.cap));
                     (Recv::Spy(r), Arc::new(s))
@@ -328,6 +333,14 @@ fn judge(scn: &MutexScn, end: &EndState, sh: &Shared) -> Verdict {
             }
         }
     }
+    if scn.sink == "unix" || scn.sink == "udp" {
+        // on the socket sinks the same promises are part of C13 ("send what remains when flushed")
+        for b in out.iter_mut() {
+            if !b.props.contains(&"C13") {
+                b.props.push("C13");
+            }
+        }
+    }
     let sig: Vec<String> = log
         .iter()
         .map(|e| match e {
@@ -374,6 +387,8 @@ enum QEv {
 #[derive(Clone)]
 pub struct QFlushScn {
     pub cap: usize,
+    /// build through the builder with an error handler configured
+    pub handler: bool,
     pub qcap: Option<usize>,
     pub prog: String,
     pub text: String,
@@ -382,6 +397,7 @@ pub struct QFlushScn {
 pub fn qflush_scenario(spec: &crate::Spec) -> QFlushScn {
     QFlushScn {
         cap: spec.usize("cap", 16),
+        handler: spec.usize("h", 0) == 1,
         qcap: spec.opt_usize("qcap"),
         prog: spec.str("prog", "EEF"),
         text: spec.raw.clone(),
@@ -441,9 +457,17 @@ impl Scenario for QFlushScn {
             let sh = sh2;
             let (rx, spy) = BufferedSpyMetricSink::with_capacity(None, Some(scn.cap));
             let logging = Logging { inner: spy, sh: sh.clone() };
-            let q = match scn.qcap {
-                Some(c) => cadence::QueuingMetricSink::with_capacity(logging, c),
-                None => cadence::QueuingMetricSink::from(logging),
+            let q = if scn.handler {
+                let mut b = cadence::QueuingMetricSink::builder().with_error_handler(|_e| {});
+                if let Some(c) = scn.qcap {
+                    b = b.with_capacity(c);
+                }
+                b.build(logging)
+            } else {
+                match scn.qcap {
+                    Some(c) => cadence::QueuingMetricSink::with_capacity(logging, c),
+                    None => cadence::QueuingMetricSink::from(logging),
+                }
             };
             let client = StatsdClient::from_sink("", q);
             let mut k = 0;
